@@ -13,7 +13,9 @@ theorem returns_input {σ : Type} (H : Bytes → Bytes) (cfg : Config) (P : Prov
     (req : Request) (r : Returned) (h : (validate H cfg P s req).out = .ok r)
     (hf : foldsBody cfg.opts req.headers = false) :
     r.method = req.method ∧ r.headers = req.headers ∧ r.body = req.body ∧ r.rebuiltUri = none := by
-  sorry
+  obtain ⟨a, fp, resp, sts, _, hfp, _, _, _, _, _, rfl⟩ := validate_ok_inv H cfg P s req r h
+  obtain ⟨h1, h2⟩ := fromRequestParts_unfolded H cfg.opts cfg.other req fp hf hfp
+  exact ⟨rfl, rfl, h2, h1⟩
 
 /-- With folding, method and headers are still untouched, the returned body is empty, and the
 returned URI is the canonical path plus the canonical query of exactly the merged URL-plus-body
@@ -25,27 +27,31 @@ theorem returns_folded {σ : Type} (H : Bytes → Bytes) (cfg : Config) (P : Pro
     ∃ fp, fromRequestParts H cfg.opts cfg.other req = .ok fp ∧
       r.rebuiltUri = some (if canonQuery fp.creq.params = [] then fp.creq.path
                            else fp.creq.path ++ [0x3F] ++ canonQuery fp.creq.params) := by
-  sorry
+  obtain ⟨a, fp, resp, sts, _, hfp, _, _, _, _, _, rfl⟩ := validate_ok_inv H cfg P s req r h
+  obtain ⟨h1, h2⟩ := fromRequestParts_folded H cfg.opts cfg.other req fp hf hfp
+  exact ⟨rfl, rfl, h1, fp, hfp, h2⟩
 
 /-- The merged parameters are the URL parameters followed by the body parameters — nothing dropped,
 nothing invented, per-name order URL first. -/
 theorem merged_params (url body : QueryMap) (k : Bytes) (hu : (url.map (·.1)).Nodup) (hb : (body.map (·.1)).Nodup) :
     (assocGet (mergeParams url body) k).getD [] = (assocGet url k).getD [] ++ (assocGet body k).getD [] := by
-  sorry
+  exact foldl_assocExtend_get body url k hb
 
 /-- The canonical query written into the returned URI reads back as the same parameters (minus the
 signature parameter): re-parsing it yields a map with the same canonical query. -/
 theorem returned_query_roundtrip (m : QueryMap)
     (hm : ∀ kv ∈ m, ∀ v ∈ kv.2, normElem false kv.1 = .ok kv.1 ∧ normElem false v = .ok v) :
     (parseQuery (canonQuery m)).map canonQuery = .ok (canonQuery m) := by
-  sorry
+  obtain ⟨h1, h2⟩ := queryPairs_normal m hm
+  exact roundtrip_sorted (queryPairs m) h1 h2
 
 /-- The identity returned is exactly what the provider supplied for this request. -/
 theorem identity_passthrough {σ : Type} (H : Bytes → Bytes) (cfg : Config) (P : Provider σ) (s : σ)
     (req : Request) (r : Returned) (h : (validate H cfg P s req).out = .ok r) :
     ∃ a resp, authOf H cfg req = .ok a ∧
       (P.call (P.ready s).2 (providerReqOf a cfg.region cfg.service)).1 = .ok resp ∧ r.identity = resp.identity := by
-  sorry
+  obtain ⟨a, fp, resp, sts, ha, _, _, _, hcall, _, _, rfl⟩ := validate_ok_inv H cfg P s req r h
+  exact ⟨a, resp, ha, hcall, rfl⟩
 
 end SigV4.C15
 
